@@ -363,7 +363,7 @@ def run(ctx, rep):
             rep.ob("R07.7", o.key, o.ok, o.msg, o.loc, o.witness, o.nontrivial, o.kind)
     rep.floor("R07.7", "decoder effect obligations shared with C04", n7, 2)
     K.share(ctx, rep, "c08", lambda o: o.rule == "R08.1" and "local propagation" in o.key, "R07.8", floor=1)
-    K.share(ctx, rep, "c09", lambda o: o.rule in ("R09.1", "R09.10") or (o.rule == "R09.2" and "public attributes" in o.key), "R07.8", floor=3)
+    K.share(ctx, rep, "c09", lambda o: o.rule in ("R09.1", "R09.10", "R09.11") or (o.rule == "R09.2" and "public attributes" in o.key), "R07.8", floor=3)
 
 
 def plumbed_key(ctx, f, param):
